@@ -52,6 +52,13 @@ def shapes_for(tier, rng, quick_alpha=(0, 1, 3), maxrows=4):
     sh = [list(ls) for k in range(0, mr + 1) for ls in itertools.product(alpha, repeat=k)]
     for _ in range(60 if tier == "thorough" else 12):
         sh.append([rng.choice([0, 0, 1, 2, 5, 9, 30]) for _ in range(rng.randint(1, 12))])
+    # sizes beyond any plausible shortcut threshold or block size: many rows, one very long row, lengths around powers of two
+    if not LIGHT[0]:
+        sh.append([(i * 7) % 5 for i in range(300)])
+        sh.append([1200, 0, 3])
+        sh.append([64, 63, 65, 0, 128, 1, 256])
+        sh.append([1] * 1030)
+        if tier == "thorough": sh.append([(i * 11) % 9 for i in range(2100)]); sh.append([4097, 4096])
     return sh
 
 
